@@ -730,6 +730,9 @@ def forwarding(chk, units):
     seen = {}
     for u in units:
         getters = getter_table(u)
+        # member operators = fields whose class has a transform() itself
+        has_transform = {d_.get("recqn") for d_ in u.decls.values() if d_["k"] == "fn" and d_["name"] == "transform"
+                         and d_.get("recqn")}
         for f in u.funcs:
             d = f.decl
             if f.dependent or not f.in_lib() or f.cfg is None or d["name"] != "transform" or d.get("record") is None:
@@ -737,11 +740,7 @@ def forwarding(chk, units):
             rec = u.decls.get(d["record"])
             if rec is None:
                 continue
-            opfields = [fd for fd in rec.get("fields", ()) if fd["type"].replace("const ", "").startswith(
-                "bspline::operators::") and not fd["type"].startswith("bspline::operators::AdditionOperation")]
-            # member operators = fields whose class has a transform() itself
-            opfields = [fd for fd in opfields if not fd["type"].replace("const ", "").startswith(
-                "bspline::operators::ScalarMultiplication<") or True]
+            opfields = [fd for fd in rec.get("fields", ()) if fd["type"].replace("const ", "").strip() in has_transform]
             gparam = [p for p in d["params"] if class_of_type(p["type"]) == "Grid"]
             iparam = [p for p in d["params"] if p["type"].replace("const ", "") in ("unsigned long", "size_t")]
             if not opfields or not gparam or not iparam:
